@@ -462,9 +462,19 @@ fn one_call(src: &mut Src) -> CallOutcome {
                     f.ty = *src.pick(&[NType::Counter, NType::Gauge, NType::Histogram, NType::Summary, NType::Untyped]);
                 }
             }
-            let lib: Vec<prometheus::proto::MetricFamily> = fams.iter().map(to_lib).collect();
+            #[allow(unused_mut)]
+            let mut lib: Vec<prometheus::proto::MetricFamily> = fams.iter().map(to_lib).collect();
             let bad = fams.iter().any(|f| f.name.is_empty() || f.samples.is_empty());
-            let untyped = fams.iter().any(|f| f.ty == NType::Untyped);
+            #[allow(unused_mut)]
+            let mut untyped = fams.iter().any(|f| f.ty == NType::Untyped);
+            // a type value this build does not know (a family written by a newer client): any verdict, but no panic
+            #[cfg(feature = "pb")]
+            if !lib.is_empty() && src.chance(30) {
+                let k = src.below(lib.len());
+                let v = [5i32, 6, -1, 100, i32::MAX, i32::MIN][src.below(6)];
+                lib[k].type_ = Some(protobuf::EnumOrUnknown::from_i32(v));
+                untyped = true; // "Expect::Any"
+            }
             let d = format!(
                 "families={:?}",
                 fams.iter().map(|f| (f.name.clone(), f.ty.text(), f.samples.len())).collect::<Vec<_>>()
@@ -529,7 +539,7 @@ impl Property for C17 {
          get_metric_with_label_values, get_metric_with, remove_label_values (shared and local vectors), remove, Registry::new_custom, \
          register/unregister on a registry and on the default registry, linear_buckets, exponential_buckets, TextEncoder encode / \
          encode_utf8 / encode_to_string, ProtobufEncoder::encode) with arbitrary Unicode strings (<=64 chars; 1% carry a run of 100-5000 bytes ending near 128 / 256 / 1024 / 4096), label lists/maps of \
-         cardinality 0-6, arbitrary f64 parameters, arbitrary families (every MetricType, payload/type mismatch, empty names, no \
+         cardinality 0-6, arbitrary f64 parameters, arbitrary families (every MetricType and unknown type values, payload/type mismatch, empty names, no \
          samples) and a writer failing after k bytes. Oracle: no panic; Err/Ok as the recognisers and the helpers' documentation \
          prescribe; a refused write must surface as Err. Non-trivial: at least one call returned Err. Distinct = decoded choices."
     }
